@@ -49,8 +49,8 @@ from vf.bounded import Outcome, Failure
 from gen import g1_grammar as g1
 
 ID = 'C20'
-LEVEL = 'exploration'
-P_TARGETS = []
+LEVEL = 'other'
+P_TARGETS = ['cgsmiles.resolve:MoleculeResolver.resolve_disconnected_molecule']
 BUDGET = {'quick': 30.0, 'thorough': 300.0}
 CHUNK = 200
 BOUNDS = {
